@@ -222,16 +222,12 @@ def r20_4_atomic_setters(chk):
     ch = ix.get_class("ChannelItem")
     scd = ch.lookup("_set_cast_dtype")
     chk.consult(scd)
-    g = CFG(scd.node)
-    val = ix.get_class("ReprCodeConverter").lookup("validate_numpy_dtype")
-    vn = g.nodes_where(lambda s: _calls_target(ix, scd, s, val))
-    stores = g.nodes_where(lambda s: isinstance(s, ast.Assign) and any(is_self_attr(t, "_cast_dtype") for t in s.targets))
-    # on the path where the dtype is not None the validation precedes the store
-    ok = bool(vn) and bool(stores)
-    if ok:
-        for ifn, (te, fe) in g.branch.items():
-            if "is not None" in norm(g.stmt[ifn].test) and vn & g.reachable(te, exceptional=False):
-                for sn in stores:
-                    ok = ok and sn not in g.reachable(te, avoid=vn, exceptional=False)
+    from ..terms import SELF as _S, is_call as _ic, call_arg as _ca
+    ssum = chk.summary(scd)
+    dt = ("param", scd.param_names[1])
+    vals = [i for i, e in enumerate(ssum.effects) if e.kind == "call" and _ic(e.value, "validate_numpy_dtype")
+            and _ca(e.value, 0) == dt and all(l == ("cmp", "is not", dt, ("const", None)) for l in e.pc)]
+    sts = [i for i, e in enumerate(ssum.effects) if e.kind == "store_attr" and e.base == _S and e.key == "_cast_dtype"]
+    ok = bool(vals) and bool(sts) and min(vals) < min(sts)
     chk.require(ok, "R20.4", "cast-dtype-validated-before-stored",
                 "a rejected cast dtype is stored on the channel before it is validated", scd.where)
